@@ -14,6 +14,7 @@ from props import c01
 
 PROP = "C04"
 N_LAW = 20000
+RESOLVE = 10 ** 10
 RULE = ("Hypothesis: (a) LGANMs with signed dyadic weights (p<=5), noise variances >= 0 incl. 0, every do/noise/shift overlap class "
         "with tuple and scalar (point-mass) parameters, also on non-source nodes; (b) NormalDistributions with Sigma = B B^T + "
         "diag(d), incl. rank-deficient B with d = 0 (singular Sigma, exactly degenerate coordinates); (c) ANM twins built from "
@@ -41,6 +42,10 @@ def _law_of(case):
     B = X.mat([[fr(x) for x in row] for row in case["B"]])
     d = [fr(x) for x in case["d"]]
     cov = X.add(X.mm(B, X.T(B)), X.diag(d))
+    cs = case.get("cscale")
+    if cs:                   # per-coordinate dyadic units: eigenvalues many orders of magnitude apart
+        u = [Fraction(2) ** e for e in cs]
+        cov = [[cov[i][j] * u[i] * u[j] for j in range(len(cov))] for i in range(len(cov))]
     return [fr(x) for x in case["mean"]], cov
 
 
@@ -90,16 +95,21 @@ def _stats(case, Xs, mean, cov):
     n, p = Xs.shape
     fm = np.array(X.vto_float(mean))
     fc = np.array(X.to_float(cov)).reshape(p, p)
-    degenerate = [i for i in range(p) if cov[i][i] == 0]
-    live = [i for i in range(p) if cov[i][i] != 0]
+    # A coordinate whose variance is more than RESOLVE (1e10) times smaller than the largest one cannot be resolved by any
+    # double-precision sampler that works from the covariance matrix (the spectrum's absolute accuracy is eps * lambda_max):
+    # such coordinates - and exactly degenerate ones - are only required to be constant up to that numerical dust
+    # (plus 8 of their own tiny standard deviations); all statistical tests run on the resolvable ("live") coordinates.
+    vmax = max(cov[i][i] for i in range(p))
+    live = [i for i in range(p) if cov[i][i] != 0 and cov[i][i] * RESOLVE >= vmax]
+    degenerate = [i for i in range(p) if i not in live]
     ctx = "%s case %s" % (case["kind"], {k: v for k, v in case.items() if k not in ("sub",)})
     trace = float(sum(cov[i][i] for i in range(p)))
     for i in degenerate:
-        tol = 1e-6 * (1 + math.sqrt(trace) + abs(fm[i]))
+        tol = 1e-6 * (1 + math.sqrt(trace) + abs(fm[i])) + 8 * math.sqrt(float(cov[i][i]))
         dev = float(np.abs(Xs[:, i] - fm[i]).max())
         if not dev <= tol:
-            raise Violation("point_mass_not_constant", "coordinate %d has zero population variance (value %r) but the sample deviates by %.3g; %s"
-                            % (i, fm[i], dev, ctx))
+            raise Violation("point_mass_not_constant", "coordinate %d has (numerically) zero population variance %.3g (value %r) but the sample "
+                            "deviates by %.3g; %s" % (i, float(cov[i][i]), fm[i], dev, ctx))
     sm = Xs.mean(axis=0)
     Sc = np.cov(Xs, rowvar=False).reshape(p, p)
     zvar_first = None
@@ -125,7 +135,8 @@ def _stats(case, Xs, mean, cov):
     for a in case.get("proj", []):
         av = [Fraction(v) for v in a]
         var = sum(av[i] * cov[i][j] * av[j] for i in range(p) for j in range(p))
-        if var > 0:
+        scale = sum(av[i] * av[i] * cov[i][i] for i in range(p))
+        if var > 0 and var * RESOLVE >= scale and all(av[i] == 0 for i in degenerate):
             mu = float(sum(av[i] * mean[i] for i in range(p)))
             y = Xs @ np.array([float(v) for v in av])
             ks = stats.ks_scaled(y, lambda t, m=mu, s=math.sqrt(float(var)): stats.norm_cdf(t, m, s))
@@ -143,6 +154,9 @@ def _labels(case, mean, cov):
     p = len(mean)
     if any(cov[i][i] == 0 for i in range(p)):
         lab.append("degenerate_coordinate")
+    vs = [cov[i][i] for i in range(p) if cov[i][i] != 0]
+    if vs and max(vs) >= 10 ** 8 * min(vs):
+        lab.append("variance_ratio_ge_1e8")
     try:
         X.inv(cov)
     except X.Singular:
@@ -195,7 +209,8 @@ def _check_pooled(cases):
         seen_seeds.add(case["seed"])
         mean, cov = _law_of(case)
         p = len(mean)
-        live = [i for i in range(p) if cov[i][i] != 0]
+        vmax = max(cov[i][i] for i in range(p))
+        live = [i for i in range(p) if cov[i][i] != 0 and cov[i][i] * RESOLVE >= vmax]
         if not live or case["n"] < 5000:
             continue
         Xs = np.asarray(_sample(case, case["n"], case["seed"]))
@@ -231,6 +246,8 @@ def law_case(draw, shape_only=False):
         if all(all(fr(x) == 0 for x in row) for row in B) and singular:
             B[0][0] = 1
         case = {"kind": "normal", "mean": [fstr(Fraction(draw(st.integers(-40, 40)), 4)) for _ in range(p)], "B": B, "d": d}
+        if draw(st.integers(0, 2)) == 0:
+            case["cscale"] = [draw(st.sampled_from([0, 0, 5, -7, -10])) for _ in range(p)]
     else:
         base = draw(c01.law_case(5))
         case = {k: base[k] for k in ("W", "means", "variances", "dtypes", "do", "noise", "shift", "wclass")}
@@ -242,6 +259,26 @@ def law_case(draw, shape_only=False):
                     del case["shift"][t]
             case["dtypes"] = {}
         p = len(case["W"])
+        if draw(st.integers(0, 2)) == 0:
+            # one noise variance many orders of magnitude below the others
+            t = draw(st.integers(0, p - 1))
+            case["variances"][t] = fstr(Fraction(draw(st.integers(1, 7)), 2 ** draw(st.sampled_from([20, 24, 28]))))
+            case["dtypes"] = dict(case.get("dtypes", {}), variances="float")
+        if draw(st.integers(0, 2)) == 0 and p >= 2:
+            # relabel the model into 9..12 variables (isolated standard-normal extras)
+            pb = draw(st.integers(9, 12))
+            lab = list(draw(st.permutations(list(range(pb)))))[:p]
+            W = [[0] * pb for _ in range(pb)]
+            for i in range(p):
+                for j in range(p):
+                    W[lab[i]][lab[j]] = case["W"][i][j]
+            means, variances = [0] * pb, [1] * pb
+            for i in range(p):
+                means[lab[i]], variances[lab[i]] = case["means"][i], case["variances"][i]
+            for nm in ("do", "noise", "shift"):
+                case[nm] = {str(lab[int(t)]): v for t, v in case[nm].items()}
+            case.update(W=W, means=means, variances=variances, dtypes={})
+            p = pb
     case["n"] = draw(st.sampled_from([0, 1, 3])) if shape_only else N_LAW
     case["seed"] = draw(st.one_of(st.integers(2, 2 ** 32 - 1), st.integers(2, 2 ** 32 - 1), st.integers(1000, 2 ** 31), st.sampled_from([0, 1])))
     case["proj"] = [[draw(st.integers(-2, 2)) for _ in range(p)] for _ in range(2)]
